@@ -251,7 +251,11 @@ class Pool:
             whole = _write_p8(self.path(name), g, short=short)
         r = p8file.from_file(self.path(name))
         want, got = _contents(g), _contents(r)
-        if want != got or r.version != version:
+        if (want != got or r.version != version) and short and r.version == version:
+            # a short-section source that the library reads to other bytes than the file denotes: the cases that name it
+            # will show it (OUT's section is compared with what the FILE holds, i.e. `want`), so go on
+            pass
+        elif want != got or r.version != version:
             bad = [s for s in SECS if want[s] != got[s]]
             raise RuntimeError('pool cart %s does not read back as written (sections %s): C03/C04 territory' % (name, bad))
         e = {'kind': 'png' if name.endswith('.p8.png') else 'p8', 'secs': self._ids(want), 'version': version,
